@@ -64,9 +64,11 @@ def extra(chk, thorough):
                     r = A.Runner()
                     try:
                         out = []
+                        real_evs = []
                         for e in evs:
                             if e == ("ack", -1):
                                 e = ("ack", r.cur_seq())
+                            real_evs.append(e)
                             out.append(r.step(e))
                         nl = r.listeners()
                     finally:
@@ -76,6 +78,11 @@ def extra(chk, thorough):
                     flat = [x for st in out for x in st]
                     if not any(x.startswith("E:2:R:") for x in flat) or nl != 0 or any(x.endswith(":NONE") for x in flat):
                         bad = bad or (kind, how, point, [str(e) for e in pre], flat[-6:], nl)
+                    else:
+                        # ... and it is ITS response (the one injected after it was issued), not the late one replayed
+                        md = T.mon_delivery(real_evs, [T.canon_step(st) for st in out])
+                        if md is not None:
+                            bad = bad or (kind, how, point, [str(e) for e in pre], [md], nl)
     # two responses inside ONE read chunk: (a) the responses of two outstanding requests for the same command - each
     # request gets one; (b) a duplicated response - the duplicate is discarded and a follow-up request gets its own
     bad2 = None
